@@ -114,11 +114,37 @@ theorem C10_negotiation_request (r : Registry) (pm : List (Option Bytes)) :
       | none => .error unsupportedMediaTypeErr :=
   pickRequestMarshaler_eq r pm
 
-/-- A successful `Bind` picked the negotiated types: first exactly-matching Accept line, else the request's. -/
+/-- A successful `Bind` picked the negotiated types: first exactly-matching Accept line, else the request's; it is
+    in SSE mode exactly when no Accept line matched and one of them is `text/event-stream`. -/
 theorem C10_negotiation_response (r : Registry) (pm : List (Option Bytes)) (acc : List Bytes) (cs ss : Bool) (b : Bound)
     (h : bind r pm acc cs ss = .ok b) :
-    negotiatedReq r pm = some b.req ∧ negotiatedResp r pm acc = some b.resp :=
+    negotiatedReq r pm = some b.req ∧ negotiatedResp r pm acc = some b.resp ∧ b.sse = negotiatedSSE r acc :=
   bind_ok_negotiated r pm acc cs ss b h
+
+/-- SSE is only ever bound for server-streaming methods (otherwise `Bind` fails with InvalidArgument). -/
+theorem C10_sse_only_server_streaming (r : Registry) (pm : List (Option Bytes)) (acc : List Bytes) (cs ss : Bool) (b : Bound)
+    (h : GB.C10.bind r pm acc cs ss = .ok b) (hs : b.sse = true) : cs = false ∧ ss = true := by
+  unfold GB.C10.bind at h
+  cases hq : pickRequestMarshaler r pm with
+  | error e => simp [hq] at h
+  | ok reqM =>
+    simp only [hq] at h
+    cases hp : pickResponseMarshaler r acc with
+    | some m =>
+      simp only [hp] at h
+      split at h
+      · simp at h
+      · split at h
+        · simp at h
+        · injection h with h; subst h; simp at hs
+    | none =>
+      simp only [hp] at h
+      split at h
+      · simp at h
+      · split at h
+        · simp at h
+        · injection h with h; subst h
+          cases cs <;> cases ss <;> simp_all
 
 /-- The error of an unsupported Content-Type asks for 415 and nothing else does so implicitly. -/
 theorem C10_415_error : wantStatus unsupportedMediaTypeErr = 415 ∧ (convert unsupportedMediaTypeErr).code = cInvalidArgument := by
@@ -165,7 +191,7 @@ theorem C10_failure (sc : Scenario) (env : Env) (hg : sc.gone = false) (o : Orig
     obtain ⟨h1, h2, _, _⟩ := failResp_fields o' false (some t) e' h
     rw [h1] at ho; rw [h2] at he
     injection ho with ho; injection he with he; subst ho; subst he
-    obtain ⟨_, hneg⟩ := bind_ok_negotiated _ _ _ _ _ _ hbind
+    obtain ⟨_, hneg, _⟩ := bind_ok_negotiated _ _ _ _ _ _ hbind
     cases henc : t.status (convert e') with
     | ok data =>
       have hw := C10_bound_status_body t e' data henc
@@ -243,30 +269,36 @@ theorem C10_failure_meets_spec (sc : Scenario) (env : Env) (hg : sc.gone = false
         (isInfix_iff _ _).2 (msg_infix_fallbackText _ _)
       simp [failureWhy, hs, hbd, hbo, hct, hneg, ← hE, Except.toBool, hinf, fallbackText_ne_nil]
 
-/-- **Success.** A call that does not fail answers 200 in the negotiated content type with the transcoded
-    response value — the whole message or the field named by `response_body`. (A server stream that ends before
-    its first message has no body and no Content-Type.) -/
+/-- **Success.** A call that does not fail answers 200 in the negotiated content type — the negotiated marshaler's,
+    or `text/event-stream` when SSE was negotiated — with the transcoded response value: the whole message or the
+    field named by `response_body`. (A server stream that ends before its first message has no body and no
+    Content-Type.) -/
 theorem C10_success (sc : Scenario) (env : Env) (h : (serve sc env).origin = none) :
     (serve sc env).status = 200 ∧ (serve sc env).err = none ∧
-    ∃ m sse, negotiatedResp registry env.pm sc.accept = some m ∧
+    ∃ m, negotiatedResp registry env.pm sc.accept = some m ∧
       (((serve sc env).ct = none ∧ (serve sc env).body = .bytes [] ∧ sc.rpc = .serverStream ∧ sc.n = 0) ∨
-       ∃ sel, traverseFieldPath respFields sc.rbp = some sel ∧ (serve sc env).ct = some m.mime ∧
+       ∃ sel, traverseFieldPath respFields sc.rbp = some sel ∧
+         (serve sc env).ct = some (successType registry sc.accept m) ∧
          (((serve sc env).body = .bytes (env.msgEnc sel) ∧ sc.rpc ≠ .serverStream) ∨
-          ((serve sc env).body = .items sel sc.n sse ∧ sc.rpc = .serverStream))) := by
+          ((serve sc env).body = .items sel sc.n (negotiatedSSE registry sc.accept) ∧ sc.rpc = .serverStream))) := by
   refine serve_ind sc env (fun r => r.origin = none →
     r.status = 200 ∧ r.err = none ∧
-    ∃ m sse, negotiatedResp registry env.pm sc.accept = some m ∧
+    ∃ m, negotiatedResp registry env.pm sc.accept = some m ∧
       ((r.ct = none ∧ r.body = .bytes [] ∧ sc.rpc = .serverStream ∧ sc.n = 0) ∨
-       ∃ sel, traverseFieldPath respFields sc.rbp = some sel ∧ r.ct = some m.mime ∧
+       ∃ sel, traverseFieldPath respFields sc.rbp = some sel ∧ r.ct = some (successType registry sc.accept m) ∧
          ((r.body = .bytes (env.msgEnc sel) ∧ sc.rpc ≠ .serverStream) ∨
-          (r.body = .items sel sc.n sse ∧ sc.rpc = .serverStream)))) ?_ ?_ ?_ h
+          (r.body = .items sel sc.n (negotiatedSSE registry sc.accept) ∧ sc.rpc = .serverStream)))) ?_ ?_ ?_ h
   · intro o g e _ _ ho
     rw [(failResp_fields o g none e []).1] at ho; cases ho
   · intro b o g t e h _ _ _ _ _ ho
     rw [(failResp_fields o g (some t) e h).1] at ho; cases ho
   · intro b r hbind hs _
-    obtain ⟨_, hneg⟩ := bind_ok_negotiated _ _ _ _ _ _ hbind
-    exact ⟨hs.2.2.1, hs.2.1, b.resp, b.sse, hneg, hs.2.2.2.2⟩
+    obtain ⟨_, hneg, hsse⟩ := bind_ok_negotiated _ _ _ _ _ _ hbind
+    refine ⟨hs.2.2.1, hs.2.1, b.resp, hneg, ?_⟩
+    have := hs.2.2.2.2
+    unfold successType
+    rw [← hsse]
+    exact this
 
 /-- **415.** If the request has Content-Type lines and none of them names a registered media type, the answer
     is 415 (unless routing already failed / Bind was replaced), as plain text carrying the message. -/
